@@ -176,6 +176,26 @@ NOT_WITNESS = [b'\x00\x01\x51', b'\x00\x29' + b'\x55' * 41, b'\x00\x03\x51\x51\x
                b'\xd1\x02\x51\x51', b'\xe0\x02\x51\x51', b'\xff\x02\x51\x51', b'\xb0\x02\x51\x51',
                b'\x51' + b'\x82' * 3, b'\x00' + b'\x80' + b'\x61' * 40, b'\x00' + b'\xfe' + b'\x61' * 2]
 
+D17 = 'D17-sighash-base-witness-shaped-subscript-asserts'
+
+
+def is_witness_shape(sc):
+    """own reading of BIP141: version opcode (OP_0, OP_1..OP_16) + one direct push of 2..40 bytes, nothing else"""
+    return (4 <= len(sc) <= 42 and (sc[0] == 0 or 0x51 <= sc[0] <= 0x60) and sc[1] + 2 == len(sc))
+
+
+def gen_witness_shaped(rng):
+    """P2WPKH / P2WSH shapes and every other (version, program length) shape"""
+    r = rng.random()
+    if r < 0.3:
+        return b'\x00\x14' + rbytes(rng, 20)
+    if r < 0.5:
+        return b'\x00\x20' + rbytes(rng, 32)
+    v = rng.choice([0] + list(range(0x51, 0x61)))
+    n = rng.choice((2, 3, 20, 32, 39, 40, rng.randrange(2, 41)))
+    return bytes([v, n]) + rbytes(rng, n)
+
+
 HT_STANDARD = (1, 2, 3, 0x81, 0x82, 0x83)
 # hash types outside one byte: the masks still select the mode, struct.pack('<i') has the int32 range
 HT_RANGE = (256, 257, 258, 259, 0x180, 0x182, 0x183, 0x1ff, 0x10001, (1 << 31) - 1, (1 << 31) - 30, 1 << 31,
@@ -257,8 +277,9 @@ class C03(Prop):
     table_groups = ['Sighash']
     theorems = ['BtcVerif.C03.' + t for t in (
         'parses_iff', 'findAndDelete_codesep', 'findAndDelete_ops', 'findAndDelete_invalid', 'raw_eq_spec',
-        'raw_eq_spec_int32', 'raw_eq_spec_wf', 'err_iff', 'raw_no_pyexc', 'isWitnessScriptPubKey_spec',
-        'wrapper_eq_spec', 'wrapper_raises_iff')]
+        'raw_eq_spec_int32', 'raw_eq_spec_wf', 'raw_eq_spec_int', 'raw_hashtype_range', 'err_iff', 'raw_no_pyexc',
+        'isWitnessScriptPubKey_spec', 'wrapper_eq_spec', 'wrapper_raises_iff', 'wrapper_witness_program_asserts',
+        'wrapper_as_coded_eq', 'witness_program_parses')]
     anchors = [('bitcoin/core/script.py', 'FindAndDelete'),
                ('bitcoin/core/script.py', 'RawSignatureHash'),
                ('bitcoin/core/script.py', 'SignatureHash'),
@@ -275,7 +296,8 @@ class C03(Prop):
     rule = ('sampled transactions (1..4 inputs, 0..4 outputs, +-witness, field values at int/uint edges, both classes) x '
             'subscripts from a grammar (CODESEPARATOR start/middle/end/consecutive, 0xab inside direct/PUSHDATA1/2/4 '
             'payloads and as a length byte, scripts that do not parse) x every index 0..|vin| x ALL 256 hash-type bytes; '
-            'hash types outside one byte / negative / outside int32; wrapper (ValueError, witness-program assertion); '
+            'hash types outside one byte / negative / outside int32; wrapper (ValueError; subscripts shaped like witness '
+            'programs — P2WPKH/P2WSH and every version/length — are generated and their AssertionError is known finding D17); '
             'every case also observes that the transaction object is unchanged; a subset is re-evaluated under Spec; '
             'histories: one live CMutableTransaction (and CTransaction) hashed, edited in place (field sets on inputs/'
             'outpoints/outputs, object replacement, list insert/delete/swap/replace, lock/version/witness), hashed again, '
@@ -347,7 +369,8 @@ class C03(Prop):
                         yield mk('c03.raw', cls, sc.hex(), text, idx, ht, tag='ht-range')
                     n += 1
             # the wrapper's assertion: witness programs as subscript
-            for sc in rng.sample(WITNESS_LIKE, 2) + rng.sample(NOT_WITNESS, 3):
+            for sc in rng.sample(WITNESS_LIKE, 2) + [gen_witness_shaped(rng) for _ in range(3)] + \
+                    rng.sample(NOT_WITNESS, 3):
                 idx = rng.randrange(len(t['vin']) + 1)
                 yield mk('c03.wrapper', rng.choice('im'), sc.hex(), text, idx, rng.choice(HT_STANDARD), tag='wrapper-wit')
 
@@ -426,4 +449,20 @@ class C03(Prop):
                 yield mk(op, s2.hex(), *a[1:], tag=tag)
 
     def signature(self, c, io, mo):
+        # D17 (known finding): `assert not script.is_witness_scriptpubkey()` in SignatureHash(SIGVERSION_BASE) — a
+        # subscript shaped like a witness program gets AssertionError instead of the digest / ValueError
+        try:
+            if c['op'] == 'c03.wrapper' and io == 'err:py:AssertionError' and mo != io \
+                    and is_witness_shape(bytes.fromhex(c['args'][1])):
+                return D17
+            if c['op'] == 'c03.hist' and io.startswith('h=') and is_witness_shape(bytes.fromhex(c['args'][1])):
+                import json as _json
+                sts = H.states(txfmt.parse_tx(c['args'][2]), _json.loads(c['args'][4]))
+                a, b = io[2:].split(','), mo.split(',')
+                diff = [k for k in range(len(sts)) if a[k] != b[k]]
+                if diff and len(a) == len(b) == len(sts) and all(
+                        a[k] == 'err:py:AssertionError' and sts[k][0][1] == 'wrap' for k in diff):
+                    return D17
+        except Exception:  # noqa: BLE001
+            pass
         return None
